@@ -9,7 +9,7 @@ TITLE = 'All server front-ends are behaviourally interchangeable'
 QUICK_S = 50
 THOROUGH_S = 600
 RULE = ('one H-SRV scenario (data-access and identification requests, 1-3 connections, single/multi context, '
-        'ignore_missing_slaves) executed on every front-end of its family - stream {sync-TCP, asyncio-TCP, Twisted-TCP} on the '
+        'ignore_missing_slaves; an application-defined function code registered on 10 % of the servers) executed on every front-end of its family - stream {sync-TCP, asyncio-TCP, Twisted-TCP} on the '
         'TCP/RTU/ASCII/binary framers, datagram {sync-UDP, asyncio-UDP, Twisted-UDP} - in three experiments: (1) serialised '
         'delivery (global order fixed, front-end quiescent between chunks): per-connection response bytes and final datastore '
         'dumps must be identical across front-ends; (2) concurrent delivery (chunks of different connections in flight '
@@ -23,7 +23,7 @@ STUBS = sc.STUBS
 
 FAMILIES = {'stream': ['sync_tcp', 'aio_tcp', 'tw_tcp'], 'dgram': ['sync_udp', 'aio_udp', 'tw_udp']}
 PROFILE = {'invalid_rate': 0.12, 'opaque_rate': 0.0, 'unknown_unit_rate': 0.12, 'multi_rate': 0.4, 'broadcast_rate': 0.0,
-           'max_conns': 3, 'max_reqs': 6, 'pipeline_rate': 0.0, 'allow_tls': False, 'cut_rate': 0.15}
+           'max_conns': 3, 'max_reqs': 6, 'pipeline_rate': 0.0, 'allow_tls': False, 'cut_rate': 0.15, 'custom_rate': 0.1}
 IDENT = [bytes([43, 14, 1, 0]), bytes([43, 14, 2, 0]), bytes([43, 14, 4, 1]), bytes([17])]
 
 
